@@ -44,12 +44,12 @@ PROPS = {
     "C17": dict(fam=["trk", "trkccw"], mc=["trk", "dead"], inv=["Inv_C17"], step=["Step_C17"]),
     "C18": dict(fam=["dead", "dead3", "exdead"], mc=["dead"], inv=["Inv_C18"], step=["Step_C18"]),
     "C19": dict(fam=["ps", "psfifo"], mc=["ps"], inv=["Inv_C19"], step=["Step_C19"]),
-    "C20": dict(fam=["exact", "eps", "exactT"], mc=["exact"], inv=[], step=["Step_C20"]),
-    "C14": dict(fam=["stopcount", "ppblock", "slotpreblock", "exactT", "exdead", "pbar", "core1", "tandem", "prio", "cls", "renege", "route", "preempt"],
+    "C20": dict(fam=["exact", "eps", "exactT", "exmix"], mc=["exact"], inv=[], step=["Step_C20"]),
+    "C14": dict(fam=["stopcount", "ppblock", "slotpreblock", "exactT", "exdead", "pbar", "exmix", "core1", "tandem", "prio", "cls", "renege", "route", "preempt"],
                 mc=["core1", "stopcount", "renegesched", "jsqsched", "ppblock"], inv=[], step=["Step_C14"]),
 }
 
-ALLFAM = ["mix", "mix", "mix", "ppccw", "eps", "exactT", "fpbjsq", "exdead", "pbar", "slotren", "preblock", "overblock", "trkccw", "ppblock", "ppzero", "slotblock", "slotpreblock", "pause", "date0", "jsqsched", "dead3", "jockey", "slotpre", "renegesched", "schedblock", "infblock", "ppsched", "ps", "core1", "tandem", "prio", "preempt", "cls", "clsren", "renege", "route", "sched", "schedpre", "schedblock",
+ALLFAM = ["mix", "mix", "mix", "ppccw", "eps", "exactT", "fpbjsq", "exdead", "pbar", "exmix", "slotren", "preblock", "overblock", "trkccw", "ppblock", "ppzero", "slotblock", "slotpreblock", "pause", "date0", "jsqsched", "dead3", "jockey", "slotpre", "renegesched", "schedblock", "infblock", "ppsched", "ps", "core1", "tandem", "prio", "preempt", "cls", "clsren", "renege", "route", "sched", "schedpre", "schedblock",
           "slot", "ccw", "trk", "reroute", "stopcount"]
 
 # vacuity gates (DESIGN section 5): witness tags that the validated traces of a check must contain at least once,
@@ -367,7 +367,7 @@ def run_check(prop, tier, seed):
         # the dates are not exact decimal sums.  Known (F10) when a Schedule is involved, a violation otherwise.
         f10 = [f for f in known if f["id"] == "F10" and f["status"] == "open"]
         for t, err in unrep:
-            sched = any(nd.get("kind") == "sched" for nd in t["scenario"]["nodes"])
+            sched = any(nd.get("kind") in ("sched", "slot") for nd in t["scenario"]["nodes"])
             if sched and f10:
                 kf.append((f10[0], "C20.dates-are-exact-decimal-sums(unrepresentable)", 0,
                            {"family": t["family"], "seed": t["seed"]}))
